@@ -1686,6 +1686,9 @@ func (s *Store) ServiceAddressNodes(ws memdb.WatchSet, address string, entMeta *
 	tx := s.db.Txn(false)
 	defer tx.Abort()
 
+	// Get the table index.
+	idx := catalogMaxIndex(tx, entMeta, peerName, false)
+
 	// List all the services.
 	q := Query{
 		EnterpriseMeta: *entMeta,
@@ -1718,7 +1721,7 @@ func (s *Store) ServiceAddressNodes(ws memdb.WatchSet, address string, entMeta *
 	if err != nil {
 		return 0, nil, fmt.Errorf("failed parsing service nodes: %s", err)
 	}
-	return 0, results, nil
+	return idx, results, nil
 }
 
 // parseServiceNodes iterates over a services query and fills in the node details,
